@@ -266,6 +266,7 @@ def run(chk):
     vlib.tlc_mc("MC_Formula", "MC_Formula_f3.cfg", workers=4, must_take=["Place", "Insert", "Remove"], check=chk)
     if chk.tier == "thorough":
         vlib.tlc_mc("MC_Formula", "MC_Formula_thorough.cfg", workers=4, timeout=7200, heap="12g", check=chk)
+        vlib.tlc_mc("MC_Formula", "MC_Formula_thorough_d3.cfg", workers=4, timeout=7200, heap="12g", check=chk)
     cases, hangs = gen_cases(chk)
     events = judge(chk, cases, hangs)
     allc = cases + hangs
